@@ -1,17 +1,43 @@
+import NucsProofs.Propagators.Affine
 import NucsProofs.Propagators.AffineLeq
+import NucsProofs.Propagators.CountEq
+import NucsProofs.Propagators.Counting
+import NucsProofs.Propagators.Dummy
+import NucsProofs.Propagators.Element
+import NucsProofs.Propagators.MinMax
+
 /-!
   C06 — a fully instantiated tuple that violates a constraint is always rejected.
 
   `GroundOk a`: whenever a call leaves all its variables instantiated without failing, that tuple
   satisfies the relation (`relW`: the relation itself; for no_sub_cycle "on permutations").
-  Together with `Sound a` (a failing call has no solution in the box) this gives, on an
-  instantiated box, "fails iff the tuple violates the relation".
+  With `Sound a`: on an instantiated box the call fails iff the tuple violates the relation
+  (`C06_point_iff`).
 -/
 namespace Nucs
 
+theorem C06_and : GroundOk .and := groundOk_and
+theorem C06_affineEq : GroundOk .affineEq := groundOk_affineEq
+theorem C06_affineGeq : GroundOk .affineGeq := groundOk_affineGeq
 theorem C06_affineLeq : GroundOk .affineLeq := groundOk_affineLeq
+theorem C06_countEq : GroundOk .countEq := groundOk_countEq
+theorem C06_dummy : GroundOk .dummy := groundOk_dummy
+theorem C06_elementIv : GroundOk .elementIv := groundOk_elementIv
+theorem C06_elementLiv : GroundOk .elementLiv := groundOk_elementLiv
+theorem C06_elementLic : GroundOk .elementLic := groundOk_elementLic
+theorem C06_exactlyEq : GroundOk .exactlyEq := groundOk_exactlyEq
+theorem C06_exactlyTrue : GroundOk .exactlyTrue := groundOk_exactlyTrue
+theorem C06_maxEq : GroundOk .maxEq := groundOk_maxEq
+theorem C06_maxLeq : GroundOk .maxLeq := groundOk_maxLeq
+theorem C06_minEq : GroundOk .minEq := groundOk_minEq
+theorem C06_minGeq : GroundOk .minGeq := groundOk_minGeq
+theorem C06_relation : GroundOk .relation := groundOk_relation
 
-/-- on a point box: the call fails iff the tuple violates the relation (corollary shape) -/
+/-- algorithms for which `GroundOk` is stated (Spec.lean) but not proved here: validated by the
+    correspondence and the brute-force oracle only -/
+def C06_unproved : List Alg := [.alldifferent, .gcc, .lexLeq, .noSubCycle, .scc]
+
+/-- on an instantiated box the call fails iff the tuple violates the relation -/
 theorem C06_point_iff (a : Alg) (hs : Sound a) (hg : GroundOk a) (hw : ∀ ps t, relW a ps t → rel a ps t)
     (ps : List Int) (t : List Int) (st : Status) (B' : Box)
     (hc : Contract a ps (pointBox t)) (hrun : runAlg a ps (pointBox t) = .ok (st, B')) :
@@ -25,6 +51,9 @@ theorem C06_point_iff (a : Alg) (hs : Sound a) (hg : GroundOk a) (hw : ∀ ps t,
     intro hst
     have h1 := h.1 hst
     have hB' : B' = pointBox t := eq_pointBox_of_le h1.1 h1.2.1
-    exact hnr (hw ps t (hg ps (pointBox t) st B' t hc (nonempty_of_inBox (inBox_pointBox_self t)) hrun hst hB'))
+    exact hnr (hw ps t (hg ps (pointBox t) st B' t hc hne hrun hst hB'))
+
+/-- non-vacuity: 2x+2y=3 on the point (1,1) is rejected (the repaired affine_eq) -/
+example : runAlg .affineEq [2, 2, 3] [(1, 1), (1, 1)] = .ok (.inc, [(1, 1), (1, 1)]) := by rfl
 
 end Nucs
